@@ -28,7 +28,8 @@ META = dict(
             'solver-chosen masked pixels, npixels in [1,H*W+1], connectivity '
             '4 and 8, scalar and 2-D symbolic threshold; thorough: adds 3x4 '
             'and 4x4 (npixels symbolic inside _detect_sources), 3x3 with <=2 '
-            'masked pixels'),
+            'masked pixels; 5x5 images whose above-threshold set lies in one '
+            'of two 15/16-pixel templates (thorough)'),
     assumptions=['floats modelled as NaN-extended reals; +-inf modelled (sign flag, comparisons only) in the cases marked inf',
                  'threshold values are finite',
                  'scipy.ndimage.label/find_objects run natively on the '
@@ -44,6 +45,17 @@ META = dict(
                  'path condition and the returned label image must equal the '
                  'reference labelling for each of them.'),
 )
+
+
+TEMPLATES = {
+    # an L-shaped component with a 3x3 bounding box and a path around it
+    # that enters the box without touching the L (16 free pixels)
+    'L+path': [(0, 0), (1, 0), (2, 0), (2, 1), (2, 2), (0, 2), (0, 3), (0, 4),
+               (1, 4), (2, 4), (3, 4), (4, 4), (4, 3), (4, 2), (4, 1), (4, 0)],
+    # two interleaved combs (15 free pixels)
+    'combs': [(0, 0), (0, 1), (0, 2), (0, 3), (0, 4), (1, 0), (1, 2), (1, 4),
+              (3, 1), (3, 3), (4, 0), (4, 1), (4, 2), (4, 3), (4, 4)],
+}
 
 
 def _mask(ctx, H, W, mode):
@@ -83,6 +95,15 @@ def _harness(case):
         else:
             thr = symarray(ctx, 't', (H, W))
             tt = [[thr[y, x].e for x in range(W)] for y in range(H)]
+        if case.get('template'):
+            # bounded family on a larger image: only the template pixels may
+            # be above threshold (all others are assumed <= threshold)
+            free = set(map(tuple, TEMPLATES[case['template']]))
+            for y in range(H):
+                for x in range(W):
+                    if (y, x) not in free:
+                        ctx.assume(z3.And(z3.Not(nanflag(data[y, x])),
+                                          term(data[y, x]) <= tt[y][x]))
         mask, mbits = _mask(ctx, H, W, case['mask'])
         lo, hi = case['npix']
         npix = ctx.int('npixels', lo, hi)
@@ -326,6 +347,10 @@ def cases(tier, seed):
                 nan=False, max_seconds=1500)
         add((4, 4), 4, 'scalar', 'none', (1, 17), entry='core', nan=False,
             max_seconds=1500)
+        for tpl in TEMPLATES:
+            for conn in (4, 8):
+                add((5, 5), conn, 'scalar', 'none', (1, 17), entry='core',
+                    nan=False, template=tpl, max_seconds=2000)
     return cs
 
 
